@@ -435,3 +435,125 @@ def _opcodes(script):
     except ScriptErr:
         pass
     return out
+
+
+# ------------------------------------------------------------------ VerifyScript / VerifyWitnessProgram (signature-free scripts)
+def is_push_only(script):
+    pc = 0
+    while pc < len(script):
+        try:
+            op, data, pc = get_op(script, pc)
+        except ScriptErr:
+            return False
+        if op > OP_16:
+            return False
+    return True
+
+
+def witness_program(script):
+    """(version, program) if script is a witness program, else None (CScript::IsWitnessProgram)."""
+    n = len(script)
+    if n < 4 or n > 42:
+        return None
+    if script[0] != OP_0 and (script[0] < OP_1 or script[0] > OP_16):
+        return None
+    if script[1] + 2 == n:
+        return (0 if script[0] == 0 else script[0] - 0x50), script[2:]
+    return None
+
+
+def is_p2sh(script):
+    return len(script) == 23 and script[0] == 0xA9 and script[1] == 0x14 and script[22] == 0x87
+
+
+def push_of(data):
+    """CScript() << data (minimal push of a byte vector, as operator<< builds it)."""
+    n = len(data)
+    if n < OP_PUSHDATA1:
+        return bytes([n]) + data
+    if n <= 0xFF:
+        return bytes([OP_PUSHDATA1, n]) + data
+    if n <= 0xFFFF:
+        return bytes([OP_PUSHDATA2]) + n.to_bytes(2, "little") + data
+    return bytes([OP_PUSHDATA4]) + n.to_bytes(4, "little") + data
+
+
+def verify_witness_program(witness, version, program, flags, is_p2sh_wrapped, sha256, ev):
+    if version == 0:
+        if len(program) == 32:
+            if len(witness) == 0:
+                _fail("witness program witness empty")
+            script = witness[-1]
+            if bool(sha256(script) != program):
+                _fail("witness program mismatch")
+            stack = list(witness[:-1])
+            for el in stack:
+                if len(el) > MAX_SCRIPT_ELEMENT_SIZE:
+                    _fail("push size")
+            ev(stack, script, True)
+            if len(stack) != 1:
+                _fail("cleanstack")
+            if not cast_to_bool(stack[-1]):
+                _fail("eval false")
+            return
+        if len(program) == 20:
+            raise NotImplementedError("p2wpkh needs a signature check")
+        _fail("witness program wrong length")
+    if version == 1 and len(program) == 32 and not is_p2sh_wrapped:
+        if "TAPROOT" in flags:
+            raise NotImplementedError("taproot needs a signature check / tweak check")
+        return
+    if not is_p2sh_wrapped and version == 1 and bytes(program) == b"\x4e\x73":
+        return                          # pay-to-anchor
+    if "DISCOURAGE_UPGRADABLE_WITNESS_PROGRAM" in flags:
+        _fail("discourage upgradable witness program")
+
+
+def verify_script(script_sig, script_pub_key, witness, flags, sha256, **evkw):
+    """Core's VerifyScript for scripts without signature opcodes. flags: set of flag names. Raises ScriptErr."""
+    def ev(stack, script, witness_v0=False):
+        eval_script(stack, script, minimaldata="MINIMALDATA" in flags, minimalif="MINIMALIF" in flags,
+                    discourage_nops="DISCOURAGE_UPGRADABLE_NOPS" in flags, witness_v0=witness_v0, **evkw)
+    if "SIGPUSHONLY" in flags and not is_push_only(script_sig):
+        _fail("sig pushonly")
+    stack = []
+    ev(stack, script_sig)
+    stack_copy = list(stack) if "P2SH" in flags else None
+    ev(stack, script_pub_key)
+    if not stack:
+        _fail("eval false")
+    if not cast_to_bool(stack[-1]):
+        _fail("eval false")
+    had_witness = False
+    if "WITNESS" in flags:
+        wp = witness_program(script_pub_key)
+        if wp is not None:
+            had_witness = True
+            if len(script_sig) != 0:
+                _fail("witness malleated")
+            verify_witness_program(witness, wp[0], wp[1], flags, False, sha256, ev)
+            stack = stack[:1]
+    if "P2SH" in flags and is_p2sh(script_pub_key):
+        if not is_push_only(script_sig):
+            _fail("sig pushonly")
+        stack = stack_copy
+        pub_key2 = stack.pop()
+        ev(stack, pub_key2)
+        if not stack:
+            _fail("eval false")
+        if not cast_to_bool(stack[-1]):
+            _fail("eval false")
+        if "WITNESS" in flags:
+            wp = witness_program(pub_key2)
+            if wp is not None:
+                had_witness = True
+                if len(script_sig) != len(push_of(pub_key2)) or bool(script_sig != push_of(pub_key2)):
+                    _fail("witness malleated p2sh")
+                verify_witness_program(witness, wp[0], wp[1], flags, True, sha256, ev)
+                stack = stack[:1]
+    if "CLEANSTACK" in flags:
+        if len(stack) != 1:
+            _fail("cleanstack")
+    if "WITNESS" in flags:
+        if not had_witness and len(witness) != 0:
+            _fail("witness unexpected")
